@@ -175,30 +175,37 @@ pub fn run(ctx: &mut Ctx) {
     ctx.evaluations += prims.len();
 
     // ------------------------------------------------------------ fft vs direct LCH evaluation (model spec)
-    let n_fft = if thorough { 400 } else { 60 };
+    let n_fft = if thorough { 2000 } else { 200 };
     let mut q = vec![];
     let mut expect: Vec<(String, u16)> = vec![];
     for _ in 0..n_fft {
         let n = ctx.rng.below(6);
         let size = 1usize << n;
-        let delta = size * ctx.rng.below(65536 / size);
+        // coset offset: aligned to the size; 0 (the coset whose last-layer twiddle is the zero element)
+        // one time in four.  The chunk sits anywhere in a larger buffer with guard shards around it.
+        let delta = if ctx.rng.chance(1, 4) { 0 } else { size * ctx.rng.below(65536 / size) };
+        let pos = *ctx.rng.pick(&[0usize, 0, 1, size, 3 * size + 2]);
+        let count = pos + size + ctx.rng.below(3);
         let coeffs: Vec<u16> = (0..size).map(|_| ctx.rng.below(65536) as u16).collect();
         let eng = ctx.rng.below(prims.len());
-        let mut data = vec![[0u8; 64]; size];
-        for (t, c) in coeffs.iter().enumerate() { set_sym(&mut data[t..t + 1], 0, *c); }
+        let mut data = vec![[0u8; 64]; count];
+        for b in data.iter_mut() { b.copy_from_slice(&ctx.rng.bytes(64)); }
+        for (t, c) in coeffs.iter().enumerate() { set_sym(&mut data[pos + t..pos + t + 1], 0, *c); }
         let orig = data.clone();
-        prims[eng].1.fft(&mut data, size, 1, 0, size, size, delta);
+        prims[eng].1.fft(&mut data, count, 1, pos, size, size, delta);
         for i in 0..size {
             if ctx.rng.chance(1, 2) || size <= 4 {
                 q.push(format!("T lcheval {} {}", delta + i, coeffs.iter().map(|c| c.to_string()).collect::<Vec<_>>().join(",")));
-                expect.push((format!("fft({}) size={} delta={} output {}", prims[eng].0, size, delta, i), get_sym(&data[i..i + 1], 0)));
+                expect.push((format!("fft({}) pos={} size={} delta={} output {}", prims[eng].0, pos, size, delta, i), get_sym(&data[pos + i..pos + i + 1], 0)));
             }
         }
-        // ifft is the exact inverse
-        prims[eng].1.ifft(&mut data, size, 1, 0, size, size, delta);
+        ctx.count("fft_pos", if pos == 0 { "0" } else { "nonzero" });
+        ctx.count("fft_delta", if delta == 0 { "0" } else { "aligned" });
+        // ifft is the exact inverse, and neither touches the guard shards
+        prims[eng].1.ifft(&mut data, count, 1, pos, size, size, delta);
         if data != orig {
             let c = Case::new("ifft-inverse");
-            ctx.oracle_fail(format!("ifft(fft(x)) != x for engine {} size={} delta={}", prims[eng].0, size, delta), &c, None);
+            ctx.oracle_fail(format!("ifft(fft(x)) != x (or a guard shard changed) for engine {} pos={} size={} delta={}", prims[eng].0, pos, size, delta), &c, None);
         }
         ctx.evaluations += 1;
         ctx.count("fft_log2_size", &n.to_string());
